@@ -51,9 +51,32 @@ def p_general_identifier(it, a, k, n):
     return DocV(D.Ann('name', D.Lit('ident(%s)' % prov(a[0]), role='identifier')))
 
 
+def _result_fields(repo, fname):
+    """field names when the package function returns instances of a collections.namedtuple class defined in its module, else None"""
+    m = repo.module('prettyprinter')
+    f = m.funcs.get(fname)
+    if f is None:
+        return None
+    for r in ast.walk(f.node):
+        if isinstance(r, ast.Return) and isinstance(r.value, ast.Call) and isinstance(r.value.func, ast.Name):
+            vals = m.assigns.get(r.value.func.id)
+            if vals and isinstance(vals[-1], ast.Call) and src(vals[-1].func).split('.')[-1] == 'namedtuple' and len(vals[-1].args) >= 2:
+                spec = vals[-1].args[1]
+                if isinstance(spec, ast.Constant) and isinstance(spec.value, str):
+                    return r.value.func.id, spec.value.replace(',', ' ').split()
+                if isinstance(spec, (ast.List, ast.Tuple)) and all(isinstance(e, ast.Constant) for e in spec.elts):
+                    return r.value.func.id, [e.value for e in spec.elts]
+    return None
+
+
 def p_unwrap_comments(it, a, k, n):
     v = a[0]
-    return TupleV([Sym('unwrapped(%s)' % prov(v)), Sym('comment-of(%s)' % prov(v)), Sym('trailing-comment-of(%s)' % prov(v))])
+    items = [Sym('unwrapped(%s)' % prov(v)), Sym('comment-of(%s)' % prov(v)), Sym('trailing-comment-of(%s)' % prov(v))]
+    nt = _result_fields(it.repo, 'unwrap_comments')
+    if nt is not None and len(nt[1]) == 3:
+        from engine.interp import NamedTupleV, NTClassV
+        return NamedTupleV(NTClassV(nt[0], nt[1]), items)     # the same three values, also reachable by field name
+    return TupleV(items)
 
 
 def p_is_namedtuple(it, a, k, n):
